@@ -347,7 +347,9 @@ def run_sub_in_shard(prop: str, sub: Sub, tier: str, seed: int, shard: int, nsha
 
 def shard_main(prop: str, tier: str, seed: int, shard: int, nshards: int, outfile: str, only_sub: str = None):
     setup_env()
-    enter_workdir(prop, shard)
+    d = os.path.join(os.path.dirname(os.path.abspath(outfile)), "s%02d" % shard)   # scratch cwd private to this run
+    os.makedirs(d, exist_ok=True)
+    os.chdir(d)
     import importlib
     result = dict(property=prop, shard=shard, subs=[], harness_error=None)
     try:
